@@ -192,3 +192,29 @@ func VH_C14_NoChunking() {
 	got2, err := b.Recv()
 	vAssert(err == nil && vBytesEq(got2, next), "the following message did not arrive as a message of its own")
 }
+
+// VH_C14_HugeChunk: "every configured maximum chunk size" includes sizes up
+// to the largest int (a way of saying "never split"): chunk size symbolic in
+// [2^20, MaxInt], payload of symbolic length up to 4 MiB and not above the
+// chunk size: exactly one packet, the Recv result equals the payload, and a
+// following message stays a message of its own. Arithmetic on the chunk size
+// that wraps (rounding up to a chunk count, for instance) shows here.
+func VH_C14_HugeChunk() {
+	l, m := vInt("len"), vInt("chunk")
+	vAssume(m >= 1<<20 && m <= 1<<63-1 && l >= 0 && l <= 4<<20 && l <= m)
+	a, b, ch := vPipe(m)
+	data := vStream("d", l)
+	vAssert(a.Send(data) == nil, "Send failed")
+	vReach("huge-sent")
+	vAssert(len(ch) == 1, "a payload not above the chunk size was not sent as exactly one packet")
+	next := vBytes("next", 2)
+	vAssert(a.Send(next) == nil, "second Send failed")
+	got, err := b.Recv()
+	vAssert(err == nil && len(got) == l, "Recv failed or returned a different length (message dropped, merged or split)")
+	j := vInt("j")
+	if err == nil && j >= 0 && j < l && j < len(got) {
+		vAssert(got[j] == data[j], "Recv returned different bytes than were sent")
+	}
+	got2, err := b.Recv()
+	vAssert(err == nil && vBytesEq(got2, next), "the following message did not arrive as a message of its own")
+}
